@@ -15,14 +15,24 @@ Oracle (real library only).  A case is a small document (<= 6 lines quick) of on
                   come first; version parameter None or "gfa2"
   rgfa            a document obeying the rules of the rGFA dialect (S with SN:Z SO:i SR:i, links 0M, no H/C/P),
                   written in GFA1 syntax (valid rGFA) or, the same content, in GFA2 syntax (gen_rgfa_doc)
+  refused         a valid document of one version (<= 4 lines) with a header line that defines TS (or, vlevel >= 2, a
+                  tag xx:i) plus a header line `bad` = a VN tag (of the version of the document or of the other one)
+                  + a contradicting definition of that tag (another TS value / xx:Z), which the Gfa must refuse
+                  wherever it comes after the defining header line (gen_refused_case); 70% of the documents without
+                  VN of their own, 80% without version parameter: the version is unknown when `bad` arrives
 together with a `version` parameter in {None, "gfa1", "gfa2"}, a `dialect` parameter (None = not passed, or
-"rgfa": most rgfa documents, 12% of the pure / mixed / neutral ones) and a validation level.
+"rgfa": most rgfa documents, 12% of the pure / mixed / neutral ones) and a validation level.  A case with a dialect
+also has `dspell`, the spelling ("rgfa", "rGFA", "RGFA", "Rgfa") under which the name of the dialect is handed to the
+`dialect` property of an existing Gfa - the setter takes the name in any case.
 REPEATED LINES: in 30% of the pure / mixed documents (15% of the rgfa ones) a line that may legally occur several
 times - a record without identifier: containment without ID tag, fragment, `*`-named E/G/O/U, GFA2 custom record;
 or a comment - occurs two or three times (preferably of a record type that is queued while the version is unknown,
 C resp. custom record, synthesised on a segment of the document if it has none).
 Every order of the lines (all n!) is loaded as a list; a sample of the orders also as a string and through
-from_file (the dialect is passed to all three entry points).  Independent classification of the lines (text only):
+from_file (the dialect is passed to all three entry points) and, when the case has a dialect, through two further
+entry points which select the dialect AFTER the Gfa was created, `g.dialect = dspell`: `setter` (empty
+Gfa(vlevel, version), the lines one by one with add_line, process_line_queue(), validate() at vlevel >= 1 - what the
+constructor does) and `setter-file` (read_file()).  All entry points are held to the same expectations.  Independent classification of the lines (text only):
 GFA1-only = S with 2 positional fields, L, C, P, H with VN:Z:1.0; GFA2-only = S with 3 positional fields, E, F, G, O,
 U, H with VN:Z:2.0; neutral = other H, comments.
 Required versions R = versions of the version-specific lines + the explicit parameter + gfa1 if dialect="rgfa"
@@ -41,6 +51,16 @@ Checked at level >= 1:
     once each - also when two of them have the same text.
 At level 0 (documented to skip checks): no foreign exception in any order; for documents without a conflict the
 outcome is the same in every order / entry point and the records are present exactly once.
+Kind `refused` in addition (every level): a line that the Gfa refused is not content, so it decides nothing.  For
+every order of the document the lines are added one by one; `bad` is offered (exception caught) at every place where
+the text says it cannot be merged (an earlier header line gives TS another value, or - vlevel >= 2 - the tag another
+datatype); if add_line raised a gfapy.Error there:
+  * Gfa.version is the same immediately before and after the refused line (refused-line-set-version);
+  * the finished Gfa (process_line_queue(), validate()) has the outcome - version or exception class - and the
+    records of the same lines added without `bad` (refused-line-changed-outcome / -content): a document valid in one
+    version is still accepted as that version, the queued lines are there once.
+Places where the text does not force the refusal (before the defining header line: the line is accepted, its VN is
+content) are not used, and that the line is in fact refused is not demanded (header consistency is not C13).
 
 NOT CHECKED:
   * custom records together with GFA1 content, version="gfa1" or the rgfa dialect (gfapy has no custom records in
@@ -50,7 +70,10 @@ NOT CHECKED:
     it except the absence of foreign exceptions; a document valid as rGFA must load as gfa1.  When nothing but the
     dialect speaks for GFA1 (neutral document, no version parameter) gfapy's default guess gfa2 makes it raise
     VersionError; the property leaves the neutral case to the documented default, so nothing is checked either;
-  * VN values other than 1.0 / 2.0; Gfa.version *during* loading (after each add_line);
+  * VN values other than 1.0 / 2.0; Gfa.version *during* loading (after each add_line) - except that a refused
+    header line leaves it as it was (kind refused);
+  * the dialect property itself (Gfa.dialect, is_rgfa() after the assignment); names other than the four spellings
+    of rgfa; the dialect changed after lines were added;
   * which of several conflicts is reported, and messages; acceptance of mixed documents at level 0 (the dialect is
     not enforced at level 0);
   * repeated lines given as gfapy.Line objects (only strings are loaded).
@@ -69,7 +92,12 @@ RULE = ("documents of 1-6 lines: pure GFA1, pure GFA2, neutral (H without VN, co
         "60% of them without any version-specific line (expected: accepted as gfa2, every record once); "
         "optionally one identifier-less line (C, F, *-named E/G/O/U, custom record, comment) repeated 2-3 times; every "
         "order of the lines as a list, sampled orders as string and file; x version parameter in {None, gfa1, gfa2} x "
-        "dialect in {not given, rgfa} x validation level 0..3. Non-trivial: >= 2 lines and at least one "
+        "dialect in {not given, rgfa} x validation level 0..3; with a dialect also: dialect selected through the "
+        "Gfa.dialect property (spelled rgfa / rGFA / RGFA / Rgfa) followed by add_line + validate, resp. read_file - "
+        "same expectations (GFA2 content or version=gfa2 -> VersionError). Kind refused (1/12): valid one-version "
+        "document of <= 4 lines with a header defining TS (or xx:i), and a header line VN + contradicting TS (or "
+        "xx:Z) offered in every order at every place where it must be refused: Gfa.version unchanged by the refused "
+        "line, outcome and records of the finished Gfa as without it. Non-trivial: >= 2 lines and at least one "
         "version-specific line or an explicit version / dialect.")
 CASE_TIMEOUT = 120
 
@@ -160,6 +188,48 @@ def gen_rgfa_doc(rng, syntax):
     return lines
 
 
+# spellings of the name of the dialect given to the `dialect` property of an existing Gfa (the setter takes the name
+# in any case; "rGFA" is the spelling of the format's own documentation)
+DIALECT_SPELLINGS = ["rgfa", "rGFA", "rGFA", "RGFA", "Rgfa"]
+
+
+def gen_refused_case(rng):
+    """kind `refused`: a small valid document of one version (<= 4 lines) one of whose header lines defines TS (or, at
+    vlevel >= 2, the tag xx with datatype i), plus `bad`: a header line which carries a VN tag - of the version of the
+    document or of the other one - together with a contradicting definition of that tag (another TS value; xx with
+    datatype Z), so that the Gfa must refuse it (InconsistencyError, or VersionError when the version is already
+    known to be the other one) wherever it comes after the defining header line.  70% of the documents have no VN
+    header of their own and 80% no version parameter, so that the version is still unknown when `bad` arrives."""
+    base_v = rng.choice(["gfa1", "gfa1", "gfa2"])               # GFA1: L/C/P lines wait in the queue
+    lines = None
+    for _ in range(6):
+        d = D.gen_doc(rng, version=base_v, max_lines=rng.choice([1, 2, 3, 3]), same_id_groups=False, odd=0.15,
+                      taglike=0.2, no_custom=(base_v == "gfa1" or rng.random() < 0.5), no_vn=rng.random() < 0.7)
+        cand = [l for l in d["lines"]
+                if not (l.split("\t")[0] == "H" and any(t[:3] in ("TS:", "xx:") for t in l.split("\t")[1:]))]
+        if 1 <= len(cand) <= 3:
+            lines = cand
+            break
+    if lines is None:
+        lines = ["S\tA\t*", "L\tA\t+\tA\t-\t*"] if base_v == "gfa1" else ["S\tA\t4\t*", "F\tA\tread1+\t0\t0\t0\t0\t*"]
+    how = rng.choice(["ts", "ts", "ts", "datatype"])
+    n, m = rng.choice([(100, 200), (16, 100), (100, 50), (5, 7)])
+    vn = "VN:Z:" + rng.choice(["1.0", "2.0"])
+    if how == "ts":
+        deftags = ["TS:i:%d" % n] + (["qq:Z:a b"] if rng.random() < 0.3 else [])
+        badtags = [vn, "TS:i:%d" % m] + (["zz:i:1"] if rng.random() < 0.2 else [])
+        vlevel = rng.choice([1, 1, 2, 3, 0])
+    else:
+        deftags = ["xx:i:%d" % n] + (["TS:i:%d" % n] if rng.random() < 0.3 else [])
+        badtags = [vn, "xx:Z:%d" % m]
+        vlevel = rng.choice([2, 3])                              # the datatypes are compared at vlevel >= 2 only
+    rng.shuffle(deftags)
+    rng.shuffle(badtags)
+    lines.insert(rng.randint(0, len(lines)), "\t".join(["H"] + deftags))
+    return {"kind": "refused", "lines": lines, "label": base_v, "vparam": None if rng.random() < 0.8 else base_v,
+            "vlevel": vlevel, "sample": rng.randrange(10 ** 6), "dialect": None, "bad": "\t".join(["H"] + badtags)}
+
+
 def repeatable(l):
     """lines a document may contain several times: records without an identifier (the GFA specifications give
     identity only to named records), i.e. containments without ID tag, fragments, `*`-named E/G/O/U, custom
@@ -204,9 +274,12 @@ def add_repeats(rng, lines, version, maxn):
 
 
 def gen_case(rng, tier, i):
-    kind = rng.choice(["pure1", "pure2", "neutral", "mixed", "mixed", "mixed", "pure1", "pure2", "oddvn", "rgfa", "custom"])
+    kind = rng.choice(["pure1", "pure2", "neutral", "mixed", "mixed", "mixed", "pure1", "pure2", "oddvn", "rgfa", "custom",
+                       "refused"])
     big = tier != "quick"
     dialect = None
+    if kind == "refused":
+        return gen_refused_case(rng)
     repeat = kind in ("pure1", "pure2", "mixed") and rng.random() < 0.3
     if kind == "custom":
         lines = gen_custom_doc(rng)
@@ -266,8 +339,12 @@ def gen_case(rng, tier, i):
         vparam = rng.choice([None, None, label]) if kind == "rgfa" else rng.choice([None, label])
     if kind in ("pure1", "pure2", "mixed", "neutral") and rng.random() < 0.12:
         dialect = "rgfa"
-    return {"kind": kind, "lines": lines, "label": label, "vparam": vparam, "vlevel": rng.choice([1, 1, 2, 3, 0]),
+    case = {"kind": kind, "lines": lines, "label": label, "vparam": vparam, "vlevel": rng.choice([1, 1, 2, 3, 0]),
             "sample": rng.randrange(10 ** 6), "dialect": dialect}
+    if dialect:
+        # the spelling under which the dialect is handed to the `dialect` property (entry points `setter` / `setter-file`)
+        case["dspell"] = rng.choice(DIALECT_SPELLINGS)
+    return case
 
 
 # ------------------------------------------------------------------ independent classification (text only)
@@ -366,6 +443,10 @@ def tags(case):
         t.append("conflict-via-VN-only")
     if case.get("dialect"):
         t.append("dialect:" + case["dialect"])
+        if case.get("dspell"):
+            t.append("setter:" + case["dspell"])
+    if case.get("bad"):
+        t.append("refused-line-VN-" + ("same" if line_class(case["bad"]) == (case.get("label") or "")[-1:] else "other"))
     if any(n > 1 for n in Counter(case["lines"]).values()):
         t.append("repeated-line")
         if any(n > 1 and line_class(l) in "1c" and l.split("\t")[0] != "S" for l, n in Counter(case["lines"]).items()):
@@ -385,11 +466,23 @@ def _count_keys(lines, version):
     return c
 
 
-def load(gfapy, entry, lines, vlevel, vparam, dialect=None):
+def load(gfapy, entry, lines, vlevel, vparam, dialect=None, dspell=None):
+    """entry points: list / str (constructor), file (from_file) - the dialect is a parameter -, and setter /
+    setter-file: an empty Gfa(vlevel, version) whose dialect is selected through the `dialect` property under the
+    spelling `dspell`, then the lines one by one with add_line, process_line_queue() and (vlevel >= 1) validate(),
+    as the constructor does, resp. read_file()."""
     kw = {"dialect": dialect} if dialect else {}
     try:
         if entry == "list":
             g = gfapy.Gfa(list(lines), vlevel=vlevel, version=vparam, **kw)
+        elif entry == "setter":
+            g = gfapy.Gfa(vlevel=vlevel, version=vparam)
+            g.dialect = dspell
+            for l in lines:
+                g.add_line(l)
+            g.process_line_queue()
+            if vlevel >= 1:
+                g.validate()
         elif entry == "str":
             g = gfapy.Gfa("\n".join(lines), vlevel=vlevel, version=vparam, **kw)
         else:
@@ -397,7 +490,12 @@ def load(gfapy, entry, lines, vlevel, vparam, dialect=None):
             try:
                 with os.fdopen(fd, "w", newline="") as f:
                     f.write("".join(l + "\n" for l in lines))
-                g = gfapy.Gfa.from_file(path, vlevel=vlevel, version=vparam, **kw)
+                if entry == "setter-file":
+                    g = gfapy.Gfa(vlevel=vlevel, version=vparam)
+                    g.dialect = dspell
+                    g.read_file(path)
+                else:
+                    g = gfapy.Gfa.from_file(path, vlevel=vlevel, version=vparam, **kw)
             finally:
                 try:
                     os.unlink(path)
@@ -416,6 +514,7 @@ def oracle(case):
     gfapy = lib.import_gfapy()
     lines, vparam, vlevel = case["lines"], case["vparam"], case["vlevel"]
     dialect = case.get("dialect")
+    dspell = case.get("dspell")
     R, unspecified, hoc = required(case)
     n = len(lines)
     perms = list(itertools.permutations(range(n))) if n <= 6 else None
@@ -444,10 +543,17 @@ def oracle(case):
     kin = None
     for pi, p in enumerate(perms):
         perm = [lines[i] for i in p]
-        for entry in (["list", "str", "file"] if pi in extra else ["list"]):
-            out, g = load(gfapy, entry, perm, vlevel, vparam, dialect)
-            where = "%s of %r (version=%s, vlevel=%d%s)" % (entry, perm, vparam, vlevel,
-                                                             ", dialect=%s" % dialect if dialect else "")
+        entries = ["list"]
+        if pi in extra:
+            entries = ["list", "str", "file"] + (["setter", "setter-file"] if dialect and dspell else [])
+        for entry in entries:
+            out, g = load(gfapy, entry, perm, vlevel, vparam, dialect, dspell)
+            how = ""
+            if dialect:
+                how = ", dialect=%s" % dialect
+                if entry.startswith("setter"):
+                    how = ", Gfa.dialect = %r" % dspell
+            where = "%s of %r (version=%s, vlevel=%d%s)" % (entry, perm, vparam, vlevel, how)
             if out[0].startswith("foreign:"):
                 add("foreign-exception[%s]" % out[0][8:], "%s raised %s %s" % (where, out[0][8:], out[1]))
             if check_consistency:
@@ -488,7 +594,116 @@ def oracle(case):
                                 % (where, D.show_key((k[0], k[1], ())), a, b))
                 except D.Unparsable as e:
                     add("output-unparsable", "%s: %s" % (where, e))
+    if case.get("bad"):
+        _refused_runs(gfapy, case, perms, add)
     return list(F.values())
+
+
+# ------------------------------------------------------------------ a refused header line is not content
+def header_defs(lines):
+    """text-level: tag name -> (datatype, value) of the first definition in the header lines among `lines`"""
+    defs = {}
+    for l in lines:
+        f = l.split("\t")
+        if f[0] == "H":
+            for t in f[1:]:
+                m = D.TAG_RE.match(t)
+                if m:
+                    defs.setdefault(m.group(1), (m.group(2), m.group(3)))
+    return defs
+
+
+def must_be_refused(before, bad, vlevel):
+    """text-level: after the lines `before` the header line `bad` cannot be merged: it gives TS (defined once per
+    document) another value than an earlier header line or, at vlevel >= 2, gives a tag another datatype"""
+    defs = header_defs(before)
+    for name, (t, v) in header_defs([bad]).items():
+        if name in defs:
+            if name == "TS" and (t, v) != defs[name]:
+                return True
+            if vlevel >= 2 and t != defs[name][0]:
+                return True
+    return False
+
+
+def incremental(gfapy, lines, vlevel, vparam, bad=None, k=None):
+    """Gfa(vlevel, version), the lines one by one with add_line, process_line_queue() and (vlevel >= 1) validate() -
+    what the constructor does with a list; before lines[k] the line `bad` is offered and the exception it raises is
+    caught.  -> (outcome, Gfa or None, what happened to `bad`: None | ("accepted",) | ("refused", exception class,
+    version before, version after) | ("foreign", exception class, message))"""
+    badinfo = None
+    try:
+        g = gfapy.Gfa(vlevel=vlevel, version=vparam)
+        for j in range(len(lines) + 1):
+            if bad is not None and j == k:
+                v0 = g.version
+                try:
+                    g.add_line(bad)
+                    return None, None, ("accepted",)
+                except gfapy.Error as e:
+                    badinfo = ("refused", e.__class__.__name__, v0, g.version)
+                except Exception as e:  # noqa
+                    return None, None, ("foreign", e.__class__.__name__, str(e).split("\n")[0][:80])
+            if j < len(lines):
+                g.add_line(lines[j])
+        g.process_line_queue()
+        if vlevel >= 1:
+            g.validate()
+    except gfapy.VersionError as e:
+        return ("VersionError", str(e).split("\n")[0][:80]), None, badinfo
+    except gfapy.Error as e:
+        return ("gerr:" + e.__class__.__name__, str(e).split("\n")[0][:80]), None, badinfo
+    except Exception as e:  # noqa
+        return ("foreign:" + e.__class__.__name__, str(e).split("\n")[0][:80]), None, badinfo
+    return ("ok", g.version), g, badinfo
+
+
+def _refused_runs(gfapy, case, perms, add):
+    """every order of the document, the header line `bad` offered at every place where the text says that it must be
+    refused: the refusal changes nothing - neither Gfa.version at that moment nor the outcome and the records of the
+    finished Gfa, which are those of the same lines added without `bad`"""
+    lines, vparam, vlevel, bad = case["lines"], case["vparam"], case["vlevel"], case["bad"]
+    for p in perms:
+        perm = [lines[i] for i in p]
+        ref = None
+        for k in range(1, len(perm) + 1):
+            if not must_be_refused(perm[:k], bad, vlevel):
+                continue
+            out, g, info = incremental(gfapy, perm, vlevel, vparam, bad, k)
+            where = "add_line of %r one by one (version=%s, vlevel=%d), %r offered after line %d" % (perm, vparam, vlevel,
+                                                                                                    bad, k)
+            if info is None:
+                continue            # an earlier line of the document was rejected
+            if info[0] == "foreign":
+                add("foreign-exception[%s]" % info[1], "%s raised %s %s" % (where, info[1], info[2]))
+                continue
+            if info[0] != "refused":
+                continue            # that the header line is refused is not C13's business
+            where += " and refused (%s)" % info[1]
+            if info[3] != info[2]:
+                add("refused-line-set-version", "%s: Gfa.version was %r before the refused line and is %r after it"
+                    % (where, info[2], info[3]))
+            if ref is None:
+                ref = incremental(gfapy, perm, vlevel, vparam)
+            if out[0].startswith("foreign:"):
+                add("foreign-exception[%s]" % out[0][8:], "%s: raised %s %s" % (where, out[0][8:], out[1]))
+            ka, kb = (out if out[0] == "ok" else (out[0],)), (ref[0] if ref[0][0] == "ok" else (ref[0][0],))
+            if ka != kb:
+                a, b = sorted([_short(ka), _short(kb)])
+                add("refused-line-changed-outcome[%s|%s]" % (a, b), "%s -> %r but the same lines without it -> %r"
+                    % (where, out, ref[0]))
+            elif g is not None and g.version in ("gfa1", "gfa2"):
+                try:
+                    ta, tb = str(g), str(ref[1])
+                    ca = _count_keys(ta.split("\n") if ta else [], g.version)
+                    cb = _count_keys(tb.split("\n") if tb else [], g.version)
+                    for key in set(ca) | set(cb):
+                        if ca.get(key, 0) != cb.get(key, 0):
+                            add("refused-line-changed-content", "%s: %s occurs %d times in the Gfa, %d times when the same "
+                                "lines are added without it" % (where, D.show_key((key[0], key[1], ())), ca.get(key, 0),
+                                                                cb.get(key, 0)))
+                except D.Unparsable as e:
+                    add("output-unparsable", "%s: %s" % (where, e))
 
 
 def _short(key):
